@@ -182,9 +182,10 @@ func init() {
 			return append(EnumAssignShapes(3, 3), EnumCondShapes(3)...)
 		},
 		Rule: "typed random programs of profile `core` (all operators/nestings, coercions, logical operators in every context, table constructors, multiple assignment, all loop kinds, break, goto) + bounded-exhaustive assignment shapes (k,m ≤ 3 over storage classes) and condition trees (depth ≤ 3 × contexts) + uninitialised local declarations re-executed by every loop kind at every function-start position + user-written iterators (control values of every type, stateless/closure/callable, break, nesting, arity) + constant-pool windows (one block with a constant in every operand position behind n filler constants, n sweeping the 256/512(/768/1024/2048) operand boundaries) + corpus; each run on the real interpreter and judged by the Lean reference semantics (emit trace, chunk results, failure line); distinct = distinct normalised AST skeletons"})
-	reg(progSpec{Prop: "C02", Profiles: []string{"calls"}, QuickN: 1200, ThoroughN: 30000, FaultPct: 5, Layouts: one, Must: constWindows,
+	reg(progSpec{Prop: "C02", Profiles: []string{"calls"}, QuickN: 1200, ThoroughN: 30000, FaultPct: 5, Layouts: one,
+		Must: func(th bool) []*Program { return append(constWindows(th), EnumLibraryCallerShapes()...) },
 		Enums: EnumCallShapes,
-		Rule: "profile `calls` (varargs, multiple results in every context, method sugar, tail calls, select, unpack) + bounded-exhaustive call shapes + corpus; oracle = Lean reference semantics"})
+		Rule: "profile `calls` (varargs, multiple results in every context, method sugar, tail calls, select, unpack) + bounded-exhaustive call shapes + library-caller shapes (calls passing through pcall/xpcall/coroutine.wrap/resume/select/unpack/assert and fixed-result functions with surplus arguments: callee arity × argument list × context) + corpus; oracle = Lean reference semantics"})
 	reg(progSpec{Prop: "C03", Profiles: []string{"closures"}, QuickN: 1200, ThoroughN: 30000, FaultPct: 10, Layouts: one,
 		Enums: func() []*Program {
 			return append(append(EnumClosureExitShapes(), EnumRegisterZeroLoopShapes()...), EnumNestedCloseShapes()...)
